@@ -25,6 +25,12 @@ fn child() {
     let dir = std::env::temp_dir().join(format!("vh-rolling-{}-{}", std::process::id(), b["id"].as_u64().unwrap_or(0)));
     let _ = std::fs::remove_dir_all(&dir);
     std::fs::create_dir_all(&dir).unwrap();
+    // files left in the directory by earlier runs of the program (older periods, possibly a later one after a clock step back),
+    // created in the given order
+    for f in b["leftovers"].as_array().map(|a| a.to_vec()).unwrap_or_default() {
+        std::fs::write(dir.join(f["name"].as_str().unwrap()), f["content"].as_str().unwrap_or("")).unwrap();
+        std::thread::sleep(std::time::Duration::from_millis(12));
+    }
     verif::set_clock(Some(b["t0"].as_i64().unwrap()));
     let rot = match b["kind"].as_str().unwrap() {
         "minutely" => Rotation::MINUTELY,
